@@ -931,6 +931,169 @@ Proof.
       apply (go_parse_hook_form inst (Some cn) hook); auto.
 Qed.
 
+(* ------------------------------------------------------------------------------------------ the daemon's other validators *)
+Lemma lang_dash_star_dshape A (al : N -> bool) :
+  (forall c, in_ranges c A = al c) -> al 45 = false ->
+  forall s, lang (dash_star A) s -> dshape al false s = true.
+Proof.
+  intros HA H45. unfold dash_star. apply star_ind'; [reflexivity |].
+  intros s1 s2 H1 _ IH. apply lang_cat_inv in H1 as (o & x & -> & Ho & Hx).
+  apply lang_cls_inv in Hx as (c & -> & Hc). rewrite HA in Hc.
+  apply lang_opt_inv in Ho as [-> | Ho].
+  - cbn [app]. rewrite dshape_cons, Hc. exact IH.
+  - apply lang_lit in Ho. subst o. cbn [app]. rewrite dshape_cons, H45. cbn [N.eqb Pos.eqb negb andb].
+    rewrite dshape_cons, Hc. exact IH.
+Qed.
+
+Lemma dshape_true_cons al c r : dshape al true (c :: r) = al c && dshape al false r.
+Proof. rewrite dshape_cons. destruct (al c); [reflexivity |]. destruct (c =? 45); reflexivity. Qed.
+
+(* F(-?A)* : first byte in F, then the dashed shape over A *)
+Lemma lang_dashed_iff F A (al : N -> bool) s :
+  (forall c, in_ranges c A = al c) -> al 45 = false ->
+  (lang (Cat (Cls F) (dash_star A)) s <->
+   match s with c :: r => in_ranges c F && dshape al false r = true | [] => False end).
+Proof.
+  intros HA H45. rewrite lang_cat_inv. split.
+  - intros (s1 & s2 & -> & H1 & H2). apply lang_cls_inv in H1 as (c & -> & Hc).
+    cbn [app]. rewrite Hc. cbn [andb]. eapply lang_dash_star_dshape; eassumption.
+  - destruct s as [|c r]; [tauto |]. intros H. apply andb_true_iff in H as [Hc Hr].
+    exists [c], r. split; [reflexivity |]. split; [constructor; exact Hc |].
+    destruct (lang_dash_star_of_dshape A al HA r false Hr) as [G _]. apply G. reflexivity.
+Qed.
+
+Theorem go_validate_app_ref s : go_validate_app s = valid_app_name s.
+Proof.
+  unfold go_validate_app. apply rmatch_char. clear s. intros s. unfold valid_app, valid_app_name.
+  change (Star (Cat (Opt (Lit [45])) (Cls [(48, 57); (65, 90); (97, 122)]))) with (dash_star [(48, 57); (65, 90); (97, 122)]).
+  rewrite (lang_dashed_iff _ _ app_char s cls_app eq_refl).
+  destruct s as [|c r]; [cbn; split; [tauto | discriminate] |].
+  rewrite dshape_true_cons, cls_app. reflexivity.
+Qed.
+
+Theorem go_validate_hook_ref s : go_validate_hook s = valid_hook_name s.
+Proof.
+  unfold go_validate_hook. apply rmatch_char. clear s. intros s. unfold valid_hook, valid_hook_name.
+  change (Star (Cat (Opt (Lit [45])) (Cls [(48, 57); (97, 122)]))) with (dash_star [(48, 57); (97, 122)]).
+  rewrite (lang_dashed_iff _ _ name_char s cls_name eq_refl).
+  destruct s as [|c r]; [split; [tauto | discriminate] |].
+  rewrite cls_lower. reflexivity.
+Qed.
+
+Theorem go_validate_plug_slot_iface_ref s :
+  go_validate_plug s = valid_hook_name s /\ go_validate_slot s = valid_hook_name s /\ go_validate_interface s = valid_hook_name s.
+Proof.
+  unfold go_validate_plug, go_validate_slot, go_validate_interface.
+  change valid_plug_slot_iface with valid_hook. fold (go_validate_hook s). rewrite go_validate_hook_ref. auto.
+Qed.
+
+Theorem go_validate_provenance_ref s : go_validate_provenance s = valid_app_name s.
+Proof.
+  unfold go_validate_provenance. change valid_provenance with valid_app. fold (go_validate_app s).
+  rewrite go_validate_app_ref. destruct s; reflexivity.
+Qed.
+
+Lemma cls_alias c : in_ranges c [(45,46);(48,57);(65,90);(95,95);(97,122)] = alias_char c.
+Proof. unfold alias_char, app_char, c_lower, c_digit. cbn [in_ranges]. bool_lia. Qed.
+
+Theorem go_validate_alias_ref s : go_validate_alias s = valid_alias_name s.
+Proof.
+  unfold go_validate_alias. apply rmatch_char. clear s. intros s. unfold valid_alias, valid_alias_name.
+  rewrite lang_cat_inv. split.
+  - intros (s1 & s2 & -> & H1 & H2). apply lang_cls_inv in H1 as (c & -> & Hc). apply lang_star_cls in H2.
+    cbn [app]. rewrite cls_app in Hc. rewrite Hc. rewrite (forallb_ext_in _ alias_char _ cls_alias) in H2. exact H2.
+  - destruct s as [|c r]; [discriminate |]. intros H. apply andb_true_iff in H as [Hc Hr].
+    exists [c], r. split; [reflexivity |]. split.
+    + constructor. rewrite cls_app. exact Hc.
+    + apply lang_star_cls. rewrite (forallb_ext_in _ alias_char _ cls_alias). exact Hr.
+Qed.
+
+Theorem go_validate_snap_id_ref s : go_validate_snap_id s = valid_snap_id_name s.
+Proof.
+  unfold go_validate_snap_id. apply rmatch_char. clear s. intros s. unfold valid_snap_id, valid_snap_id_name.
+  rewrite lang_rep_cls. rewrite (forallb_ext_in _ app_char _ cls_app).
+  rewrite andb_true_iff, Nat.eqb_eq. intuition lia.
+Qed.
+
+Theorem go_validate_socket_iface_tag_ref s :
+  go_validate_socket s = valid_dashed_name s /\ go_validate_iface_tag s = valid_dashed_name s.
+Proof. unfold go_validate_socket, go_validate_iface_tag, valid_dashed_name. rewrite go_is_valid_name_ref. auto. Qed.
+
+(* a quota group name is valid exactly when it is a valid snap name *)
+Theorem go_validate_quota_group_ref s : go_validate_quota_group s = valid_snap_name s.
+Proof.
+  rewrite <- go_validate_snap_ref.
+  unfold go_validate_quota_group, go_validate_snap, go_is_valid_name, go_quota_min_len, go_quota_max_len, go_snap_min_len, go_snap_max_len.
+  destruct s as [|c r]; [reflexivity |]. cbn [is_nil_b].
+  destruct ((List.length (c :: r) <? 2)%nat || (40 <? List.length (c :: r))%nat); [reflexivity |]. cbn [orb].
+  destruct (rmatch almost_valid_name (c :: r)); cbn [negb]; [| reflexivity].
+  destruct (hd_is 45 (c :: r) || last_is 45 (c :: r) || contains2 45 45 (c :: r)); reflexivity.
+Qed.
+
+(* ------------------------------------------------------------------------------------------ Go accepts iff C accepts *)
+Theorem go_iff_c_names : forall s : bytes,
+  go_validate_snap s = sc_snap_name_validate s /\ go_validate_snap s = sun_validate_snap_name s /\
+  go_validate_instance s = sc_instance_name_validate s /\ go_validate_instance s = sun_validate_instance_name s /\
+  go_validate_component s = sc_snap_component_validate s.
+Proof.
+  intros s. rewrite go_validate_snap_ref, sc_snap_name_validate_ref, sun_validate_snap_name_ref, go_validate_instance_ref,
+    sc_instance_name_validate_ref, sun_validate_instance_name_ref, go_validate_component_ref, sc_snap_component_validate_ref.
+  auto.
+Qed.
+
+(* the recorded finding carved out exactly: a tag generated from accepted names is accepted by snap-confine if and only if
+   it is at most 256 bytes long *)
+Theorem generated_tags_accepted_iff (inst : bytes) (comp : option bytes) (is_hook : bool) (name : bytes) :
+  go_validate_instance inst = true ->
+  comp_ok go_validate_snap comp = true ->
+  (if is_hook then go_validate_hook name else go_validate_app name) = true ->
+  (is_hook = false -> comp = None) ->
+  (sc_security_tag_validate (model_tag inst comp is_hook name) inst comp = true <->
+   (List.length (model_tag inst comp is_hook name) <= 256)%nat).
+Proof.
+  intros Hi Hc Hn Ha. split.
+  - unfold sc_security_tag_validate, sc_security_tag_max_len.
+    destruct (Nat.ltb_spec 256 (List.length (model_tag inst comp is_hook name))); [discriminate | intros _; assumption].
+  - intros Hl. apply generated_tags_accepted; assumption.
+Qed.
+
+(* ------------------------------------------------------------------------------------------ sc_is_hook_security_tag *)
+(* a hook tag of a snap whose name starts with a letter and that is not a component hook is recognised *)
+Theorem is_hook_tag_recognised inst hook :
+  go_validate_instance inst = true -> go_validate_hook hook = true ->
+  match inst with c :: _ => c_lower c = true | [] => False end ->
+  sc_is_hook_security_tag (go_hook_tag inst None hook) = true.
+Proof.
+  intros Hi Hh Hc. rewrite go_validate_instance_ref in Hi. apply valid_instance_name_lang in Hi.
+  unfold go_validate_hook in Hh. apply rmatch_lang in Hh.
+  unfold re_g1 in Hi. apply lang_cat_inv in Hi as (s1 & s23 & -> & H1 & H23).
+  apply lang_cat_inv in H23 as (s2 & s3 & -> & H2 & H3).
+  apply lang_cls_inv in H1 as (c & -> & _). cbn [app] in Hc.
+  unfold sc_is_hook_security_tag. apply rmatch_lang. unfold sc_hook_tag_re, go_hook_tag.
+  change (lit_snap ++ [46] ++ ([c] ++ s2 ++ s3) ++ [46] ++ lit_hook ++ [46] ++ hook)
+    with ([115;110;97;112;46] ++ ([c] ++ (s2 ++ s3) ++ [46] ++ [104;111;111;107;46] ++ hook)).
+  constructor; [apply lang_lit; reflexivity |].
+  constructor; [constructor; rewrite cls_lower; exact Hc |].
+  rewrite <- app_assoc. constructor; [exact H2 |].
+  constructor; [exact H3 |].
+  constructor; [apply lang_lit; reflexivity |].
+  constructor; [apply lang_lit; reflexivity | exact Hh].
+Qed.
+
+(* but hook tags of snaps whose name starts with a digit, and all component hook tags, are not: both are hook tags for the
+   daemon and are accepted by sc_security_tag_validate *)
+Theorem is_hook_tag_refuted :
+  exists tag inst comp hook,
+    go_parse_security_tag tag = Some (inst, comp, true, hook) /\ sc_security_tag_validate tag inst comp = true /\
+    sc_is_hook_security_tag tag = false.
+Proof. exists (lit_snap ++ [46; 48; 97; 100; 46] ++ lit_hook ++ [46; 120]), [48; 97; 100], None, [120]. vm_compute. auto. Qed.
+
+Lemma is_hook_component_example :
+  go_parse_security_tag (go_hook_tag [102;111;111] (Some [99;111;109;112]) [120]) = Some ([102;111;111], Some [99;111;109;112], true, [120]) /\
+  sc_security_tag_validate (go_hook_tag [102;111;111] (Some [99;111;109;112]) [120]) [102;111;111] (Some [99;111;109;112]) = true /\
+  sc_is_hook_security_tag (go_hook_tag [102;111;111] (Some [99;111;109;112]) [120]) = false.
+Proof. vm_compute. auto. Qed.
+
 (* ------------------------------------------------------------------------------------------ the statements of props/C24.v *)
 Theorem snap_name_agree : forall s : bytes,
   go_validate_snap s = valid_snap_name s /\ sc_snap_name_validate s = valid_snap_name s /\
@@ -973,3 +1136,17 @@ Theorem tag_names_instance : forall (tag inst : bytes) (comp : option bytes),
   sc_security_tag_validate tag inst comp = true ->
   tag_group1 tag = inst /\ match comp with Some cn => tag_group7 tag = Some cn | None => tag_group7 tag = None end.
 Proof. exact sc_tag_instance_is_group1. Qed.
+
+Theorem other_validators_ref : forall s : bytes,
+  go_validate_app s = valid_app_name s /\ go_validate_provenance s = valid_app_name s /\
+  go_validate_hook s = valid_hook_name s /\ go_validate_plug s = valid_hook_name s /\
+  go_validate_slot s = valid_hook_name s /\ go_validate_interface s = valid_hook_name s /\
+  go_validate_alias s = valid_alias_name s /\ go_validate_snap_id s = valid_snap_id_name s /\
+  go_validate_socket s = valid_dashed_name s /\ go_validate_iface_tag s = valid_dashed_name s /\
+  go_validate_quota_group s = valid_snap_name s.
+Proof.
+  intros s. destruct (go_validate_plug_slot_iface_ref s) as (P1 & P2 & P3).
+  destruct (go_validate_socket_iface_tag_ref s) as (S1 & S2).
+  repeat split; auto using go_validate_app_ref, go_validate_provenance_ref, go_validate_hook_ref, go_validate_alias_ref,
+    go_validate_snap_id_ref, go_validate_quota_group_ref.
+Qed.
